@@ -24,7 +24,7 @@ PROP = "C08"
 CASE_TIMEOUT = 20.0
 MOD = __name__
 META = {
-    "rule": "L1: 45 fixed requires_python shapes (ranges, unions, !=X.Y.* holes, bounds inside a minor series, ~=, ==X.Y.Z, "
+    "rule": "L1: 48 fixed requires_python shapes (ranges, unions, !=X.Y.* holes, bounds inside a minor series, ~=, ==X.Y.Z, "
     "2.x) x 5 implementation/gil settings x the whole single-tag universe (cp/py/pp/pt x majors 2-3 x minors 0-20, py2/py3; "
     "abi none/abi3/cpXY[m|d|u|t|dt]/mismatching/pypyXY_pp73/pystonXY_23) - exhaustive; L2: Hypothesis requires_python texts x "
     "compressed tag sets. Non-trivial = requires_python neither universal nor empty and the tag's minor within 2 of one "
@@ -48,6 +48,8 @@ RPS = [
     "<=3.10,>=3.8", "<3.12,>=3.9", "<=3.10,==3.10.*",
     "==3.10||==3.9.*", "==3.9.*||==3.10", "==3.10.0||~=3.9.0",
     ">=3.8,!=3.9.*,<3.11||>=3.9,!=3.11.*", "!=3.9,<3.11||>=3.9,!=3.11",
+    # the same upper version twice with different inclusivity, next to an exclusive lower bound
+    ">3.8,<=3.10,<3.10", ">3.8,<=3.10||>=3.7,<3.10", ">3.8,<3.10,<=3.10",
 ]
 IMPLS = [[None, False], ["cpython", False], ["cpython", True], ["pypy", False], ["pyston", False]]
 PYT = [f"{p}{x}{y}" for p in ("cp", "py", "pp", "pt") for x in (2, 3) for y in range(0, 21)] + ["py2", "py3"]
